@@ -32,7 +32,7 @@ class RunnerBasics(Harness):
                  "(1,1,1,1), (2,2,0,1), batch clearing after a 1-step no-execution session} plus scripted families: "
                  "HFT sweep of two resting orders, HFT batch of two items, cancels of filled/expired orders, two "
                  "markets hit in any order with two items per consultation",
-        "thorough": "adds (1,2,0,2) with market orders and cancels, (1,3,0,1), (1,2,1,2), (2,2,0,2)",
+        "thorough": "adds (1,3,0,1) with limit and market orders and (2,2,0,2) with limit orders",
     }
 
     def cases(self, tier):
@@ -61,12 +61,11 @@ class RunnerBasics(Harness):
             {"M": 1, "A": 3, "H": 0, "S": 4, "acts": L, "pre": 0, "cap": 3, "script": "halt"},
         ]
         if tier == "thorough":
+            # (measured: with cancels and market orders over two steps, or a high-frequency agent over two steps,
+            # the space exceeds 1.5 million paths and does not finish in 45 minutes; those are left out)
             out += [
-                {"M": 1, "A": 2, "H": 0, "S": 2, "acts": LMC, "pre": 0, "cap": 2},
                 {"M": 1, "A": 3, "H": 0, "S": 1, "acts": LM, "pre": 0, "cap": 3},
-                {"M": 1, "A": 2, "H": 1, "S": 2, "acts": L, "pre": 0, "cap": 2},
                 {"M": 2, "A": 2, "H": 0, "S": 2, "acts": L, "pre": 0, "cap": 2},
-                {"M": 1, "A": 2, "H": 0, "S": 2, "acts": LM, "pre": 1, "cap": 2},
             ]
         return out
 
